@@ -56,7 +56,10 @@ ImplD12(raw) == (raw.b1 \div 16) + ((raw.b2 * 16) % 256)
 CompareMsg(where, m, spec, skip, obs, raw, ga, la) ==
     LET of == ListToFun(obs.f)
         keys == (DOMAIN spec \cup DOMAIN of) \ skip
-        bad == { s \in keys : ~(s \in DOMAIN spec /\ s \in DOMAIN of /\ FieldEq(spec[s], of[s])) }
+        \* a wall-clock-only local time of 0 may be reported as the (absent) base time
+        ok(s) == IF s \in DOMAIN spec /\ s \in DOMAIN of THEN FieldEq(spec[s], of[s])
+                 ELSE s \in DOMAIN spec /\ spec[s] = WallOnly(Zero4)
+        bad == { s \in keys : ~ok(s) }
         kf(s) == IF m # 20 \/ s \notin DOMAIN of \/ s \notin DOMAIN spec THEN << >>
                  ELSE IF s = S(20, 5) /\ raw.csd /\ of[s] = ga.dist.a
                       THEN (IF la.dist.a # spec[s] THEN << "KF_ByteShiftTruncation" >> ELSE << >>)
@@ -132,7 +135,10 @@ CompareFile(final) ==
     /\ IF HdrEq(dec.hdr, o.hdr) THEN TRUE ELSE Note(w @@ [what |-> "file header", expected |-> dec.hdr, observed |-> o.hdr])
     /\ IF dec.mode # "full" \/ dec.fileids = 0 THEN TRUE
        ELSE
-       /\ CompareMsg(w @@ [slot |-> "FileId"], 0, dec.fileid, {}, o.fileid, [csd |-> FALSE], gacc, lacc)
+       \* which file_id is reported when a stream carries several is not pinned;
+       \* the type that selected the container (the first one's) is.
+       /\ IF dec.fileids = 1 THEN CompareMsg(w @@ [slot |-> "FileId"], 0, dec.fileid, {}, o.fileid, [csd |-> FALSE], gacc, lacc) ELSE TRUE
+       /\ IF o.type = dec.ftype THEN TRUE ELSE Note(w @@ [what |-> "file type", expected |-> dec.ftype, observed |-> o.type])
        /\ IF final = "either" THEN TRUE
           ELSE
           /\ IF final = "accept" /\ o.crc # dec.filecrc THEN Note(w @@ [what |-> "file crc field", expected |-> dec.filecrc, observed |-> o.crc]) ELSE TRUE
